@@ -750,7 +750,23 @@ class _Builder(object):
         elif op is C.SUBPATTERN:
             group, add_flags, del_flags, p = av
             if add_flags or del_flags:
-                raise Unsupported("inline flags")
+                # scoped flags (?i:...) / (?-i:...) / (?s:...): the letter-case and dot conventions change for the group only
+                if (add_flags | del_flags) & ~(re.I | re.S | re.X):
+                    raise Unsupported("inline flags other than i / s / x")
+                saved = (self.icase, self.dotall)
+                if add_flags & re.I:
+                    self.icase = True
+                if del_flags & re.I:
+                    self.icase = False
+                if add_flags & re.S:
+                    self.dotall = True
+                if del_flags & re.S:
+                    self.dotall = False
+                try:
+                    self.seq(p, s, e, tail)
+                finally:
+                    self.icase, self.dotall = saved
+                return
             self.seq(p, s, e, tail)
         elif op in (C.MAX_REPEAT, C.MIN_REPEAT) or op is getattr(C, "POSSESSIVE_REPEAT", None):
             if op is getattr(C, "POSSESSIVE_REPEAT", None):
